@@ -406,6 +406,7 @@ func (u *Upstream) Flush(ctx context.Context) error {
 	case <-ctx.Done():
 		return ctx.Err()
 	}
+	verifhook.Point("upstream.flush.handed", u.ID.String())
 	select {
 	case <-ctx.Done():
 		return ctx.Err()
